@@ -21,6 +21,8 @@ ops
   psbt.taproot <sht|.> <tx> <i> <outs> <leafhash> <ht|.> <pre 0|1>
   spec.legacy <sc> <tx> <i> <ht>      spec.bip143 <sc> <tx> <i> <ht> <amount>      spec.bip341 <tx> <i> <outs> <ht> <annex> <ext>
       the PREIMAGE BYTES of the specification (Part A), `ok bug` for the legacy SIGHASH_SINGLE constant
+  spec.legacy.digest / spec.bip143.digest / spec.bip341.digest (same arguments): the DIGEST of the specification alone
+      (no btclib-shaped function is evaluated on these lines)
 answers: `ok <hex>` / `err value` / `err foreign`; the three digest ops also evaluate the
 specification (Part A) on every accepted line and answer `specdiff …` if it differs.
 -/
@@ -117,6 +119,18 @@ def handleC09 : List String → Option String
     let annex ← fromHex? annex; let ext ← fromHex? ext
     let e ← tapExt? (if ext.isEmpty then 0 else 1) ext
     pure ("ok " ++ toHex (bip341Preimage sha256 tx i outs ht (if annex.isEmpty then none else some annex) e))
+  | ["spec.legacy.digest", sc, tx, i, ht] => do
+    let sc ← fromHex? sc; let (tx, _) ← parseTx tx; let i ← i.toNat?; let ht ← parseInt? ht
+    pure ("ok " ++ toHex (legacyDigest hash256 sc tx i (Impl.word ht)))
+  | ["spec.bip143.digest", sc, tx, i, ht, amount] => do
+    let sc ← fromHex? sc; let (tx, _) ← parseTx tx; let i ← i.toNat?; let ht ← parseInt? ht
+    let amount ← parseInt? amount
+    pure ("ok " ++ toHex (bip143Digest hash256 sc tx i (Impl.word ht) amount))
+  | ["spec.bip341.digest", tx, i, outs, ht, annex, ext] => do
+    let (tx, _) ← parseTx tx; let i ← i.toNat?; let outs ← parseOuts outs; let ht ← ht.toNat?
+    let annex ← fromHex? annex; let ext ← fromHex? ext
+    let e ← tapExt? (if ext.isEmpty then 0 else 1) ext
+    pure ("ok " ++ toHex (bip341Digest sha256 tx i outs ht (if annex.isEmpty then none else some annex) e))
   | ["strip", s] => do
     let s ← fromHex? s
     pure ("ok " ++ toHex (withoutCodeSeparators s))
